@@ -262,6 +262,12 @@ def gen_site(rng, boom_ok=False):
             lambda: f"{e}.hits[0].value + {v()} + {e}.hits[1].slice",
             lambda: f"[{j}.trk.attr + {e}.hit.ctx + {v()} for {j} in {e}.jets]",
         ]
+        # a method called on a captured value (the receiver is a free variable like any other)
+        forms += [
+            lambda: f"{e}.a + {v()}.__abs__()",
+            lambda: f"{e}.jets.Where(lambda {j}: {j}.pt > {v()}.__abs__()).Count()",
+            lambda: f"[{j}.pt * {v()}.__abs__() + {v()}.real for {j} in {e}.jets]",
+        ]
         # a bound name spelled like a captured class / module, used with the very attribute the
         # captured object has (`lambda K0: K0.A` - K0 the parameter, not the class)
         forms += [
@@ -304,6 +310,7 @@ def gen_site(rng, boom_ok=False):
             lambda: f"{e}.jets.Where(lambda {j}: {j}.pt > {v()}).Count() > 0",
             lambda: f"{e}.a > {v()} or {e}.tag != {tag()}",
             lambda: f"{e}.hit.id > {v()}",
+            lambda: f"{e}.a > {v()}.__abs__()",
             lambda: f"{e}.hits[0].value > {v()} and {e}.hit.attr < {v()}",
         ]
         body = rng.choice(forms)()
